@@ -128,6 +128,31 @@ def late_additions():
     return big + keys + single + skipped + order
 
 
+def grid():
+    """Every keyed collection over EVERY primitive key type, and every container over every one-byte element type.
+    The crate specialises on the element type (the hidden `u8_slice` / `vec_from_reader` / `array_from_reader` hooks);
+    a hook granted to one more element type, or consulted by one more container, changes the bytes of exactly one
+    (container, element) pair - `HashSet<i8>` sorted as bytes, say - so the pairs are enumerated rather than sampled."""
+    out = []
+    keys = [P(n) for n in PRIMS if key_ok(P(n))]
+    for k in ('hashset', 'btreeset'):
+        out += [seq(k, e) for e in keys]
+    for k in ('hashmap', 'btreemap'):
+        out += [mapk(k, e, P('u8')) for e in keys]
+    unitv = ('prod', ('variant', (), ()), ())
+    kasc = ('sum', ('enum', 'KAsc', ('A', 'B', 'C'), (0, 1, 2)), (unitv, unitv, unitv))
+    one_byte = [P('u8'), P('i8'), P('bool'), P('nzu8'), P('nzi8'), P('asciichar'), kasc]
+    for e in one_byte:
+        out += [seq('vec', e), seq('deque', e), seq('list', e), arr(3, e), arr(33, e), opt(e), wrap('box', seq('slice', e)),
+                wrap('cow', seq('slice', e)), seq('vec', seq('vec', e)), seq('vec', arr(2, e))]
+        if key_ok(e):
+            out += [seq('indexset', e), mapk('indexmap', e, P('u8'))]
+    # values of one-byte types next to the keys of the maps above
+    for e in (P('i8'), P('bool'), P('nzi8')):
+        out += [mapk('hashmap', P('u8'), e), mapk('btreemap', P('i8'), e)]
+    return out
+
+
 def catalogue_types():
     rng = random.Random(CATALOGUE_SEED)
     out = []
@@ -155,6 +180,11 @@ def catalogue_types():
         assert t not in seen
         seen.add(t)
         out.append(t)
+    for t in grid():
+        assert wf(t), t
+        if t not in seen:
+            seen.add(t)
+            out.append(t)
     return list(enumerate(out))
 
 
@@ -169,9 +199,11 @@ CANON_BASE = 100000
 def canon_entries():
     """[(id, type, constructor)] -- constructor is the Rust expression building the Entry."""
     string = ('text', 'string')
-    sets = [P('u32'), U8, string, tup(P('i8'), P('bool')), seq('vec', U8), opt(P('i16')), P('i64'), arr(2, P('i8'))]
+    sets = [P('u32'), U8, string, tup(P('i8'), P('bool')), seq('vec', U8), opt(P('i16')), P('i64'), arr(2, P('i8')),
+            P('i8'), P('nzi8'), P('bool'), P('i16'), P('u16')]    # one-byte elements: the types the crate's hooks specialise on
     maps = [(U8, U8), (P('i64'), string), (string, seq('vec', P('u16'))), (opt(P('i8')), P('f32')),
-            (tup(P('u16'), string), opt(tup(U8, P('f32')))), (P('u32'), seq('hashset', P('i16')))]
+            (tup(P('u16'), string), opt(tup(U8, P('f32')))), (P('u32'), seq('hashset', P('i16'))),
+            (P('i8'), U8), (P('bool'), P('i8')), (P('nzi8'), P('nzi8'))]
     deques = [U8, P('u32'), string, opt(P('i16')), tup(U8, seq('vec', U8)), seq('deque', U8)]
     out = []
     i = CANON_BASE
